@@ -1149,7 +1149,7 @@ static int64_t default_runs(const std::string& prop, const std::string& tier)
 }
 
 #if defined(VERIF_ASAN)
-extern "C" __attribute__((used)) const char* __asan_default_options() { return "detect_leaks=0:exitcode=77:allocator_may_return_null=1:detect_stack_use_after_return=0:malloc_fill_byte=0:max_malloc_fill_size=1073741824"; }
+extern "C" __attribute__((used)) const char* __asan_default_options() { return "detect_leaks=0:exitcode=77:allocator_may_return_null=1:detect_stack_use_after_return=1:malloc_fill_byte=0:max_malloc_fill_size=1073741824"; }
 extern "C" __attribute__((used)) const char* __ubsan_default_options() { return "print_stacktrace=1:halt_on_error=1"; }
 #endif
 
